@@ -166,6 +166,8 @@ def mk_tf_shampoo(which):
       ctx.assume(sym.sand(count % fs == 0, count % fp_ != 0))
     elif which == "precond":
       ctx.assume(sym.sand(count % fs != 0, count % fp_ == 0))
+    elif which == "both":
+      ctx.assume(sym.sand(count % fs == 0, count % fp_ == 0))
     upd, new = sh._update(opts, g, st)
     ctx.oblige("tearfree.shampoo._update.post.count+1", new.count.item() == count + 1)
     for a, d in enumerate(shape):
@@ -182,8 +184,33 @@ def mk_tf_shampoo(which):
       if which in ("none", "stats"):
         ctx.oblige("tearfree.shampoo._update.post.roots unchanged when count % update_preconditioners_freq != 0",
                    r_new == roots[a].at((0, i, j)), detail=which)
+      else:
+        ctx.oblige("tearfree.shampoo._update.post.roots refreshed when count % update_preconditioners_freq == 0, whatever the "
+                   "statistics schedule (value differs structurally from the stored root)",
+                   sym.snot(sym.prove(r_new == roots[a].at((0, i, j)))), detail=which)
+        # ... and they are the roots of the statistics current at that step
+        ctx.oblige("tearfree.shampoo._update.post.refreshed roots are built from eigh of the statistics current at that step",
+                   _same_eigh(ctx, new.blocks.stats[a], r_new), detail=which)
 
   return t
+
+
+def _same_eigh(ctx, stat, r_new):
+  """The refreshed root must be built from an eigh of the CURRENT statistics tensor (pointwise equal operand)."""
+  for (x, w, v) in ctx.ghost.get("eighs", []):
+    k = (spec.fresh_int("e0"), spec.fresh_int("e1"), spec.fresh_int("e2"))
+    if len(x.shape) == 3 and len(stat.shape) == 3 and sym.prove(x.at(k) == stat.at(k)):
+      names = {w.tags["f"].name(), v.tags["f"].name()}
+      import z3
+
+      def mentions(e, seen=set()):
+        if z3.is_app(e) and e.decl().name() in names:
+          return True
+        return any(mentions(ch) for ch in e.children())
+
+      if isinstance(r_new, sym.Sym) and mentions(r_new.z):
+        return True
+  return False
 
 
 def mk_tf_sketchy(refresh):
@@ -232,7 +259,7 @@ def tasks(tier):
         Task("schedule", t_schedule), Task("update_fn phases/count (shared with C02)", c02.t_phases)]
   for b1 in (False, True):
     ts.append(Task(f"statistics cadence[beta2=1:{b1}] (shared with C02)", c02.mk_stats(b1, 2, True)))
-  for w in ("none", "stats", "precond"):
+  for w in ("none", "stats", "precond", "both"):
     ts.append(Task(f"tearfree shampoo cadence[{w}]", mk_tf_shampoo(w)))
   for r in (False, True):
     ts.append(Task(f"tearfree sketchy cadence[refresh={r}]", mk_tf_sketchy(r)))
